@@ -803,6 +803,75 @@ async def run_real_verify(env, drv, cov, add_violation, record):
         record(cell, impl, m)
 
 
+
+# ---------------------------------------------------------------- kernel cross-check of the extraction
+ECODES = ["Authentication", "Backoff", "MaxPeers", "MaxTries", "Unavailable", "Busy", "Invalid", "Unknown", "IllegalData",
+          "InvalidAuthTag", "IncorrectPairingId", "InvalidSignature", "Parse"]
+OKCODES = {"saltkey": 100, "cont": 101, "pairing": 102, "resumed": 103, "keys": 104, "done": 105}
+COQ_STEP = {"S2": "SetupM2", "S4": "SetupM4", "S6": "SetupM6", "V2": "VerifyM2", "V4": "VerifyM4"}
+COQ_OP = {"ipadd": "IpAdd", "iprem": "IpRemove", "bleadd": "BleAdd", "blerem": "BleRemove"}
+
+
+def out_code(ans):
+    t = ans.split(" ")
+    if t[0] == "ok":
+        return OKCODES[t[1]]
+    if t[0] == "err":
+        return 1 + ECODES.index(t[1])
+    return {"crash": 200, "fuel": 201}[t[0]]
+
+
+def coq_bytes(b):
+    return "[" + ";".join(str(x) for x in b) + "]"
+
+
+def coq_opt(b):
+    return "None" if b is None else "(Some " + coq_bytes(b) + ")"
+
+
+def coq_bool(x):
+    return "true" if x else "false"
+
+
+def kernel_crosscheck(verif, step_cases, mgmt_cases):
+    """the same cases through vm_compute on the compiled theories: extraction is not a single point of trust.
+    step_cases: (cell, driver answer); mgmt_cases: (op, reply bytes, driver answer).  Returns #disagreements."""
+    from common import coq_eval
+    rows = []
+    for c, ans in step_cases:
+        o = c["o"]
+        orc = ("{| o_srp_proof_ok := %s; o_m6_plain := %s; o_m6_sig_ok := %s; o_derive_given := %s; o_resume_plain := %s; "
+               "o_v2_plain := %s; o_v2_sig_ok := %s; o_pairing_id := %s |}" % (
+                   coq_bool(o["srp"]), coq_opt(o["m6plain"]), coq_bool(o["m6sig"]), coq_bool(o["derive"]), coq_opt(o["rplain"]),
+                   coq_opt(o["v2plain"]), coq_bool(o["v2sig"]), coq_bytes(o["pid"])))
+        tr = "Filtered" if c["t"] == "F" else "Unfiltered"
+        rows.append(f"(ocode (step_wire {tr} {COQ_STEP[c['step']]} {orc} {coq_bytes(cell_reply(c))}), {out_code(ans)})")
+    for op, reply, ans in mgmt_cases:
+        rows.append(f"(mcode (mgmt_wire {COQ_OP[op]} {coq_bytes(reply)}), {out_code(ans)})")
+    body = """From Coq Require Import List NArith Bool.
+From AHK Require Import Lib.Res Lib.ByteStr Model.Tlv Model.Steps.
+Import ListNotations.
+Open Scope N_scope.
+Definition ecode (e : errclass) : N :=
+  match e with EAuthentication => 1 | EBackoff => 2 | EMaxPeers => 3 | EMaxTries => 4 | EUnavailable => 5 | EBusy => 6
+  | EInvalid => 7 | EUnknown => 8 | EIllegalData => 9 | EInvalidAuthTag => 10 | EIncorrectPairingId => 11
+  | EInvalidSignature => 12 | EParse => 13 end.
+Definition ocode (r : outcome) : N :=
+  match r with Ok (PSaltKey _ _) => 100 | Ok PContinue => 101 | Ok (PPairing _ _) => 102 | Ok PResumed => 103 | Ok PKeys => 104
+  | Err e => ecode e | Crash => 200 | OutOfFuel => 201 end.
+Definition mcode (r : res errclass mgmt_done) : N :=
+  match r with Ok MDone => 105 | Err e => ecode e | Crash => 200 | OutOfFuel => 201 end.
+Definition cases : list (N * N) := [
+""" + ";\n".join(rows) + """].
+Eval vm_compute in (N.of_nat (length (filter (fun c => negb (N.eqb (fst c) (snd c))) cases))).
+"""
+    out = coq_eval(verif, "C04", "cases_c04", body, timeout=600)
+    import re
+    m = re.search(r"=\s*(\d+)", out)
+    if not m:
+        raise RuntimeError("cannot parse coq_eval output: " + out[-300:])
+    return int(m.group(1))
+
 # ---------------------------------------------------------------- run
 def run(ctx):
     tier, seed = ctx["tier"], ctx["seed"]
@@ -866,7 +935,7 @@ def run(ctx):
     cells = gen_main(tier, x_pub) + gen_extra(x_pub) + gen_resume(x_pub) + gen_items(x_pub)
     n_mut = 3000 if tier == "quick" else 60000
     cells += gen_mutated(cells, rng(seed, "c04mut"), n_mut)
-    models = drv.batch([model_line(c) for c in cells])
+    step_models = drv.batch([model_line(c) for c in cells])
 
     async def all_steps():
         out = []
@@ -881,9 +950,7 @@ def run(ctx):
             env.bc.char_write = orig_cw
         return out
     impls = asyncio.run(all_steps())
-    for c, i, m in zip(cells, impls, models):
-        if c["items"] is None and c["t"] == "L":
-            continue
+    for c, i, m in zip(cells, impls, step_models):
         record(c, i, m)
 
     # ---- call level: IpDiscovery / SecureHomeKitConnection / CoAPHomeKitConnection drive the generators themselves
@@ -989,6 +1056,22 @@ def run(ctx):
     for c, i, m in zip(all_mg, impls, models):
         record(c, i, m)
 
+    # ---- vm_compute cross-check of the extracted model on a sample
+    rs = rng(seed, "c04vm")
+    wire_idx = [i for i, c in enumerate(cells) if c["t"] in "FU"]
+    pick = rs.sample(wire_idx, 90 if tier == "quick" else 700)
+    mg_pick = rs.sample(range(len(all_mg)), 40 if tier == "quick" else 300)
+    try:
+        bad = kernel_crosscheck(ctx["verif"], [(cells[i], step_models[i]) for i in pick],
+                                [(all_mg[i]["step"], all_mg[i]["raw"], models[i]) for i in mg_pick])
+        cov.extra["vm_compute_crosscheck"] = dict(cases=len(pick) + len(mg_pick), disagreements=bad)
+        if bad:
+            mismatches.append((dict(stream="vm_compute", step="extraction", t="-", items=[], o=default_oracles(), meta={}),
+                               f"{bad} answers of the extracted driver", "differ from vm_compute"))
+    except Exception as e:  # noqa
+        mismatches.append((dict(stream="vm_compute", step="crosscheck-failed", t="-", items=[], o=default_oracles(), meta={}),
+                           "coq_eval failed", str(e)[-200:]))
+
     # ---- the decision table on every single code byte (finite: 256) + lengths 0 and 2
     tbl_bad = []
     codes = [bytes([b]) for b in range(256)] + [b"", b"\x02\x00", b"\x06\x06"]
@@ -1028,7 +1111,7 @@ def run(ctx):
             c = x[0]
             items = c["items"] or ref_decode(c.get("raw") or b"") or []
             code = next((v for k, v in items if k == T_ERROR), None)
-            return (c["stream"] == "mutated", code not in (None, b"\x02"), len(cell_reply(c)) if c["t"] != "L" else 0)
+            return (c["stream"] in ("mutated", "items"), code not in (None, b"\x02"), len(cell_reply(c)) if c["t"] != "L" else 0)
         lst.sort(key=rank)
         c, impl, model, verdict, sk, ek = lst[0]
         step = c["step"]
